@@ -179,13 +179,19 @@ impl SourceView {
                 return Some(lines[idx]);
             }
         }
+        #[cfg(sourcemap_verif)]
+        crate::verif::yield_point(1);
 
         // fetched everything
         if self.processed_until.load(Ordering::Relaxed) > self.source.len() {
             return None;
         }
+        #[cfg(sourcemap_verif)]
+        crate::verif::yield_point(2);
 
         let mut lines = self.lines.lock().unwrap();
+        #[cfg(sourcemap_verif)]
+        crate::verif::yield_point(3);
         let mut done = false;
 
         while !done {
